@@ -102,6 +102,8 @@ def f_out_comma(vmf: VMF) -> None:
 def f_out_inst(vmf: VMF) -> None:
     first_ent(vmf).add_out(Output('OnOut', 'inst_name', 'In', inst_out='relay', inst_in='other_relay', delay=0.25))
     first_ent(vmf).add_out(Output('OnOut2', 'inst2', 'In2', inst_in='only_in', comma_sep=True))
+    # the instance form is cut at the FIRST semicolon: the command part may hold further ones
+    first_ent(vmf).add_out(Output('OnUser1;first', 'inst3', 'In;put;x', inst_out='proxy', inst_in='relay2'))
 
 
 def f_out_param_comma(vmf: VMF) -> None:
@@ -435,6 +437,21 @@ def f_node_ids(vmf: VMF) -> None:
     vmf.create_ent('info_node', nodeid='1', origin='64 0 0')
 
 
+def f_zero_ids(vmf: VMF) -> None:
+    """Objects numbered 0 (as some tools write them): with preserve_ids=True a parse keeps these numbers like any other."""
+    e = vmf.create_ent('info_zero', origin='0 0 0')
+    e.id = 0
+    s = vmf.make_prism(Vec(512, 512, 0), Vec(528, 528, 16)).solid
+    vmf.add_brush(s)
+    s.id = 0
+    s.sides[0].id = 0
+
+
+def f_out_negzero_delay(vmf: VMF) -> None:
+    first_ent(vmf).add_out(Output('OnZero', 'targ', 'Fire', delay=-0.0))
+    first_ent(vmf).add_out(Output('OnZero', 'targ', 'Fire', 'p', delay=-0.0, times=1))
+
+
 def f_ent_keys_types(vmf: VMF) -> None:
     vmf.create_ent('typed', vec=Vec(1.5, -2, 3), flag=True, num=5, flt=0.125, ang=Angle(0, 270, 15))
 
@@ -446,7 +463,7 @@ FEATURES: list[tuple[str, Callable[[VMF], None]]] = [(f.__name__[2:], f) for f i
     f_disp1, f_disp2, f_disp3, f_disp4, f_disp_flags, f_multiblend, f_multiblend_default_colors, f_multiblend_partial, f_multiblend_w_only, f_multiblend_colors_after_first, f_visgroup_blank_name, f_disp_fresh, f_brush_ent_vis_flags, f_strata_points, f_visgroups,
     f_visgroup_membership, f_vis_flags, f_groups, f_camera_one, f_camera_two, f_cordon_one, f_cordon_two, f_strata_views,
     f_strata_views_zero, f_strata_inst_vis, f_view_flags, f_comments, f_logical_pos, f_editor_colors, f_quickhide, f_versions,
-    f_cordon_solid, f_worldspawn_keys, f_worldspawn_editor, f_node_ids, f_ent_keys_types,
+    f_cordon_solid, f_worldspawn_keys, f_worldspawn_editor, f_node_ids, f_zero_ids, f_out_negzero_delay, f_ent_keys_types,
 ]]
 FEATURE_MAP = dict(FEATURES)
 
